@@ -163,6 +163,11 @@ func parseUnion(
 	parsedString := []string{}
 	children := prioritizeDirectAssignment(relationDefinition.GetUnion().GetChild())
 
+	if len(children) == 0 {
+		// an operator without operands has no DSL representation
+		return "", errors.UnsupportedDSLNestingError(typeName, relationName)
+	}
+
 	for index := 0; index < len(children); index++ {
 		parsedSubString, err := parseSubRelation(typeName, relationName, children[index], typeRestrictions, validator)
 		if err != nil {
@@ -184,6 +189,11 @@ func parseIntersection(
 ) (string, error) {
 	parsedString := []string{}
 	children := prioritizeDirectAssignment(relationDefinition.GetIntersection().GetChild())
+
+	if len(children) == 0 {
+		// an operator without operands has no DSL representation
+		return "", errors.UnsupportedDSLNestingError(typeName, relationName)
+	}
 
 	for index := 0; index < len(children); index++ {
 		parsedSubString, err := parseSubRelation(typeName, relationName, children[index], typeRestrictions, validator)
